@@ -122,16 +122,24 @@ async fn run_case(addr: std::net::SocketAddr, r: &mut StdRng, case: &Value) -> V
     headers.extend(header_lines("Upgrade", &jarr(&req["upg"]), &sep));
     match jstr(&req["ver"]).as_str() {
         "13" => headers.push(("Sec-WebSocket-Version".into(), "13".into())),
-        "other" => headers.push(("Sec-WebSocket-Version".into(), ["12", "8", "14", "1", "113"][r.gen_range(0..5)].into())),
+        "other" => headers.push(("Sec-WebSocket-Version".into(), ["12", "8", "14", "1", "113", "13, 8", "13 8", "013", "13.0", "13,13"][r.gen_range(0..10)].into())),
         _ => {}
     }
-    let key: Option<String> = if jstr(&req["key"]) == "present" {
+    let key_class = jstr(&req["key"]);
+    let key: Option<String> = if key_class == "present" {
         let raw: Vec<u8> = (0..16).map(|_| r.gen()).collect();
         Some(match r.gen_range(0..10) {
             0 => "dGhlIHNhbXBsZSBub25jZQ==".to_string(), // the RFC's example
             1 => "not-base64-at-all".to_string(),
             _ => base64::engine::general_purpose::STANDARD.encode(raw),
         })
+    } else if key_class == "odd" {
+        // a field value with an interior separator: the digest covers all of it
+        let raw: Vec<u8> = (0..16).map(|_| r.gen()).collect();
+        let b = base64::engine::general_purpose::STANDARD.encode(raw);
+        let at = r.gen_range(1..b.len() - 1);
+        let sep = [" ", ",", "\t", ", ", " ,", "  "][r.gen_range(0..6)];
+        Some(format!("{}{}{}", &b[..at], sep, &b[at..]))
     } else {
         None
     };
